@@ -28,6 +28,15 @@ theorem derive_phase_key_shape :
     Gen.C02.receiveDecryptArgs = [["data_key", "body"]] := by
   decide
 
+/-- Boss keeps the two in-order inbound streams apart, as the model does (`rxPhases`/`nextRx` and `rxDil`/`nextDil`
+    are separate fields): `_init_other_state` creates each cursor and each parking dict in an assignment of its own, the
+    dicts as fresh `{}` literals — not a chained `a = b = {}`, not a helper object (whose own state would have to be
+    modelled).  A dict shared between the streams hands a parked `dilate-n` plaintext to the application as message `n`. -/
+theorem boss_reorder_buffers_are_separate :
+    Gen.C02.bossRxState =
+      [(["_next_rx_phase"], "0"), (["_rx_phases"], "{}"), (["_next_rx_dilate_seqnum"], "0"), (["_rx_dilate_seqnums"], "{}")] := by
+  decide
+
 /-- the hand-written bodies follow the call skeletons extracted from the working tree -/
 theorem skeleton_agrees : ∀ p ∈ expectedSkel, Gen.Skel.skeleton p.1 = p.2 := by
   decide +kernel
